@@ -2,7 +2,7 @@
    Only statements, each closed by [exact] (short glue allowed), each followed by
    Print Assumptions. *)
 From Coq Require Import ZArith List Bool Lia.
-From Synnax Require Import Generated.Consts_C10 Cesium.Store Cesium.IndexSearch Cesium.Distance Cesium.Stamp
+From Synnax Require Import Cesium.LayoutOk Generated.Consts_C10 Cesium.Store Cesium.IndexSearch Cesium.Distance Cesium.Stamp
      Cesium.UnaryIter Cesium.UnaryWrite Cesium.Read Monitors.Mon_C10
      Cesium.IndexSearchProofs Cesium.UnaryIterViews Cesium.UnaryIterViewsRun Cesium.LegacyWitness
      Cesium.DomIterProofs Cesium.DistanceProofs Cesium.UnaryIterExact Cesium.SliceProofs Cesium.UnaryIterSpec Cesium.UnaryIterRun
@@ -53,16 +53,21 @@ Qed.
 Print Assumptions C10_step_view.
 
 (* Step exactness.  [layout_assoc P D] is the stored content of the channel: every data domain
-   paired, sample by sample, with the index stamps of its range.  For every layout in which the
-   index and the data domains are sorted, non-overlapping and non-empty, index stamps ascend
-   inside their domain, and every data domain lies inside one index domain and holds one sample
-   per index stamp of its range ([layout_ok]); for every data type kind, chunk size, valid
-   bounds and EVERY command sequence (seeks, explicit and automatic steps in both directions,
-   SetBounds): after each command that does not report an error, Value() is exactly the stored
-   samples whose stamps lie in View(), in order, and Valid() <-> a series was returned.
-   _partial: layouts in which one data domain spans several contiguous index domains (the index
-   file rolled over inside it) are outside [layout_ok]; they are covered by the correspondence
-   only (the Distance walk over such domains is modelled, see C01 finding F25). *)
+   paired, sample by sample, with the index stamps of its range.  [layout_ok P D]: all index
+   stamps ascend, the data domains are sorted, non-overlapping and non-empty, and for every data
+   domain Distance resolves every prefix of its range to the number of index stamps in it
+   ([dist_ok]) and the domain holds one sample per index stamp of its range.  [dist_ok] is
+   proved for every data domain that starts inside an index domain and ends within the run of
+   immediately contiguous index domains beginning there (C10_layout_check_sound, the decidable
+   [layout_okb]; index file rollovers inside a data domain included).
+   For every such layout, every data type kind, chunk size, valid bounds and EVERY command
+   sequence (seeks, explicit and automatic steps in both directions, SetBounds): after each
+   command that does not report an error, Value() is exactly the stored samples whose stamps lie
+   in View(), in order, and Valid() <-> a series was returned.
+   _partial: the hypothesis [layout_ok] stays visible — that every history of legal writes
+   yields such a layout is observed by the correspondence (all generated layouts satisfy
+   layout_okb), not proved (see C01); the per-series clause of the monitor (each series carries
+   the samples of its own range) is proved only structurally (C10_step_frame). *)
 Theorem C10_step_exact_partial : forall P D var chunk b cmds,
   layout_ok P D -> valid_bounds b -> Forall cmd_ok cmds ->
   Forall (fun o => o_err o = 0 ->
@@ -99,8 +104,8 @@ Print Assumptions C10_distance_count.
 (* Full traversal: SeekFirst, then forward steps of any spans (explicit and automatic mixed),
    none reporting an error, until the view reaches the end of the bounds: the values returned,
    concatenated, are exactly the stored samples of the bounds — each once, in order.
-   _partial: same layout guard; the backward traversal is covered by the correspondence only
-   (and is where the known finding F24 lives). *)
+   _partial: same layout hypothesis; the backward traversal is covered by the correspondence
+   only (and is where the known finding F24 lives). *)
 Theorem C10_full_traversal_partial : forall P D var chunk b steps,
   layout_ok P D -> valid_bounds b -> Forall fwd_cmd steps ->
   let os := u_run P D var chunk false (u_open b) (SeekFirst :: steps) in
@@ -110,7 +115,8 @@ Theorem C10_full_traversal_partial : forall P D var chunk b steps,
 Proof. exact full_traversal_fwd. Qed.
 Print Assumptions C10_full_traversal_partial.
 
-(* the layout hypothesis is decidable (used to evaluate it on concrete layouts) *)
+(* the layout hypothesis holds for every layout accepted by the decidable check: well-formed
+   index, sorted data domains, each data domain within a contiguous run of index domains *)
 Theorem C10_layout_check_sound : forall P D, layout_okb P D = true -> layout_ok P D.
 Proof. exact layout_okb_sound. Qed.
 Print Assumptions C10_layout_check_sound.
@@ -130,10 +136,13 @@ Proof.
 Qed.
 Print Assumptions C10_legacy_steps_refuted.
 
-(* Known finding F24 (not repaired): backwardStamp reads one stamp past the previous domain
-   when the wanted sample is the first of the current one, so Prev(AutoSpan) reports EOF. *)
-Theorem C10_auto_prev_eof_refuted : stamp w_idx3 110 (-1) false = Err EEOF.
-Proof. exact backward_stamp_eof. Qed.
+(* Known finding F24 (not repaired): backwardStamp cannot resolve a chunk whose boundary falls on
+   the first sample of an index domain: with a predecessor it reads one stamp past that
+   domain's end (EOF); in the first domain the lower bound would need a domain before it
+   (Discontinuous).  Prev(AutoSpan) then reports an error although samples remain. *)
+Theorem C10_auto_prev_eof_refuted :
+  stamp w_idx3 110 (-1) false = Err EEOF /\ stamp w_idx3 51 (-6) false = Err EDisc.
+Proof. split; [exact backward_stamp_eof|exact backward_stamp_first]. Qed.
 Print Assumptions C10_auto_prev_eof_refuted.
 
 (* Non-vacuity: a two-domain layout whose writer started before its first sample, valid
